@@ -8,7 +8,7 @@ def gen_history(rng, profile=None, max_ops=40):
     p = {'pressure': 0.6, 'identity': 0.3, 'affinity': 0.4, 'failure': 0.4, 'partitions': 0.3,
          'lease': 0.2, 'traits': 0.3, 'alloc': 0.5, 'raw_remove': 0.1, 'renew': 0.1, 'once': 0.1,
          'blacklist': 0.15, 'maxutil': 0.15, 'prio0': 0.15, 'deep': 0.0, 'move': 0.03, 'few_shapes': 0.0,
-         'scenarios': 0.0, 'many_allocs': 0, 'sparse_demand': 0.0, 'frozen': 0.25}
+         'scenarios': 0.0, 'many_allocs': 0, 'sparse_demand': 0.0, 'frozen': 0.25, 'restore': 0.05}
     if profile:
         p.update(profile)
     ops = []
@@ -164,6 +164,27 @@ def gen_history(rng, profile=None, max_ops=40):
                     ops.append(['SetValidUntil', sv, now[0] + rng.choice([0, 1, 2])])
             ops.append(['SetRenew', n])
             ops.append(['Schedule'])
+            continue
+        if srv and rng.random() < p['restore'] * 0.4:
+            # Loader.reload_server: the server is taken out with its instances, declared again (possibly smaller) and
+            # the recorded placements are put back (identities are kept, leases re-evaluated)
+            n = rng.choice(srv)
+            info = st['servers'][n]
+            ops.append(['Schedule'])
+            ops.append(['RemoveServer', n, False])
+            cap = info['cap'] if rng.random() < 0.6 else [max(1, c // 2) for c in info['cap']]
+            info['cap'] = cap
+            ops.append(['AddServer', n, info['parent'], cap, info['label'], info['traits'], 0])
+            for k in range(rng.randint(1, 4)):
+                ops.append(['Restore', n, k, rng.random() < 0.3, rng.choice([0, 5, 50]), 'own'])
+            if rng.random() < 0.7:
+                ops.append(['Schedule'])
+            continue
+        if srv and rng.random() < p['restore'] * 0.6:
+            # Loader.restore_placement after a restart: a recorded placement is put back as recorded (verbatim, with
+            # its expiry and identity) or, when the server restarted since, by Server.put
+            ops.append(['Restore', rng.choice(srv), rng.randrange(8), rng.random() < 0.6,
+                        rng.choice([-5, 0, 3, 20, 100]), rng.choice(['free', 'free', 'own', 'beyond'])])
             continue
         if r < 0.22:
             ops.append(['Schedule'])
